@@ -224,7 +224,7 @@ fn coq_events(evs: &[Event]) -> String {
             Event::End { alpha, iter, status } => format!("OEnd {} {} {}", cfl(*alpha), cn(*iter as usize), cn(*status as usize)),
             Event::ExtraLine { iter } => format!("OExtraLine {}", cn(*iter as usize)),
             Event::Post { status_in, status_out } => format!("OPost {} {}", cn(*status_in as usize), cn(*status_out as usize)),
-            Event::Info { .. } | Event::Vars { .. } => continue,
+            _ => continue,
         };
         out.push(s);
     }
